@@ -11,6 +11,8 @@ TRUSTED = ["rustc nightly MIR construction", "spec/h3.json transcription", "quin
 
 
 def run(ctx):
+    ctx.rule("C12-R7", "client side of the CONNECT stream: the first non-GREASE response frame must be HEADERS, anything else is H3_FRAME_UNEXPECTED")
+    shared.connect_response_table(ctx, "C12-R7")
     ctx.rule("C12-R1", "validate_frame tables == reference admission table (4 roles)")
     shared.validate_frame_tables(ctx, "C12-R1")
     ctx.rule("C12-R2", "read_frame / read_frame_async / upgrade error mappings == reference, sibling-equal (8+2)")
